@@ -25,7 +25,16 @@ use rs_matter::dm::clusters::gen_comm::{CommissioningErrorEnum, GeneralCommissio
 use rs_matter::dm::clusters::noc::{NodeOperationalCertStatusEnum, OperationalCredentialsClient};
 use rs_matter::dm::devices::test::{TEST_DEV_ATT, TEST_DEV_COMM, TEST_DEV_DET};
 use rs_matter::dm::devices::DEV_TYPE_ROOT_NODE;
-use rs_matter::dm::endpoints::{EthSysHandler, EthSysHandlerBuilder, ROOT_ENDPOINT_ID};
+use rs_matter::dm::clusters::binding::{self, BindingHandler, Bindings};
+use rs_matter::dm::clusters::net_comm::NetworkType;
+use rs_matter::dm::clusters::user_label::{self, UserLabelHandler, UserLabels};
+use rs_matter::dm::endpoints::{WifiSysHandlerBuilder, ROOT_ENDPOINT_ID};
+use rs_matter::dm::networks::wireless::NoopWirelessNetCtl;
+use rs_matter::dm::{Async, Dataver, EpClMatcher};
+use rs_matter::im::{AttrDataTag, AttrPath, GenericPath};
+use rs_matter::im::client::{SubscribeOutcome, TxOutcome};
+use rs_matter::persist::{PERSISTENT_SUBSCRIPTIONS_END, PERSISTENT_SUBSCRIPTIONS_START};
+use rs_matter::tlv::TLVElement;
 use rs_matter::dm::networks::wireless::WifiNetworks;
 use rs_matter::dm::{
     AsyncHandler, Endpoint, HandlerContext, InvokeContext, InvokeReply, LifecycleOp, MatchContext, Metadata, Node, ReadContext, ReadReply,
@@ -49,14 +58,22 @@ use rs_matter::dm::clusters::net_comm::NetworksAccess;
 use crate::proto::{Case, Out};
 use crate::simnet::{addr_of, run_sim, Perfect, SimEnd, SimNet};
 
-/// the root endpoint with the system clusters of an Ethernet device
-struct RootHandler<'a>(EthSysHandler<'a>);
+/// the root endpoint with the system clusters of a Wi-Fi device (so that the network commissioning
+/// commands reach the real `NetCommHandler`), plus an endpoint 1 with the Binding and UserLabel clusters
+struct RootHandler<H>(H);
 
-impl RootHandler<'_> {
-    const NODE: Node<'static> = Node { endpoints: &[Endpoint::new(0, &[DEV_TYPE_ROOT_NODE], clusters!(eth;))] };
+const EXT_ENDPOINT: u16 = 1;
+
+impl<H> RootHandler<H> {
+    const NODE: Node<'static> = Node {
+        endpoints: &[
+            Endpoint::new(0, &[DEV_TYPE_ROOT_NODE], clusters!(wifi;)),
+            Endpoint::new(EXT_ENDPOINT, &[DEV_TYPE_ROOT_NODE], clusters!(binding::CLUSTER, user_label::CLUSTER)),
+        ],
+    };
 }
 
-impl AsyncHandler for RootHandler<'_> {
+impl<H: AsyncHandler> AsyncHandler for RootHandler<H> {
     fn read_awaits(&self, _ctx: impl ReadContext) -> bool {
         false
     }
@@ -83,7 +100,7 @@ impl AsyncHandler for RootHandler<'_> {
     }
 }
 
-impl Metadata for RootHandler<'_> {
+impl<H> Metadata for RootHandler<H> {
     fn access<F, R>(&self, f: F) -> R
     where
         F: FnOnce(&Node<'_>) -> R,
@@ -117,6 +134,31 @@ fn num(w: &[&str], i: usize) -> u64 {
     w.get(i).and_then(|x| x.parse().ok()).unwrap_or(0)
 }
 
+/// one attribute write (a list value replaces the list); `Ok("ok")` iff every write status is Success
+macro_rules! write_attr {
+    ($exchange:expr, $ep:expr, $cluster:expr, $attr:expr, |$w:ident| $body:expr) => {
+        async {
+            let handle = $exchange
+                .write_with(None, |builder| {
+                    let entries = builder.write_requests()?;
+                    let entries = entries.push()?.path($ep, $cluster, $attr)?.data(|$w| $body)?.end()?;
+                    entries.end()?.end()
+                })
+                .await?;
+            let mut good = true;
+            let mut any = false;
+            {
+                let resp = handle.response()?;
+                for st in resp.write_responses.iter().take(8) {
+                    any = true;
+                    good &= st?.status.status == IMStatusCode::Success;
+                }
+            }
+            Ok::<String, Error>(if any && good { "ok".to_string() } else { "rej".to_string() })
+        }
+    };
+}
+
 /// one boot of the device: run ops from `start` until the case ends or the node restarts
 fn run_boot(h: &HCtx, ops: &[String], start: usize, restarted: bool, lines: &RefCell<Vec<(String, String)>>) -> BootEnd {
     let crypto = test_only_crypto();
@@ -132,13 +174,118 @@ fn run_boot(h: &HCtx, ops: &[String], start: usize, restarted: bool, lines: &Ref
     let im_state: Box<ImState> = Box::new(InteractionModelState::new(WifiNetworks::new()));
     im_state.suppress_start_up_event();
     let kv = device.kv(h.kv.clone());
-    let handler = RootHandler(EthSysHandlerBuilder::new().build(crypto.rand().unwrap()));
+    let net_ctl = NoopWirelessNetCtl::new(NetworkType::Wifi);
+    let bindings: Bindings<8> = Bindings::new();
+    let labels: UserLabels<1, 4> = UserLabels::new();
+    let mut dv_rand = crypto.rand().unwrap();
+    let handler = RootHandler(
+        WifiSysHandlerBuilder::new(&net_ctl, &net_ctl)
+            .build(crypto.rand().unwrap())
+            .chain(
+                EpClMatcher::new(Some(EXT_ENDPOINT), Some(binding::CLUSTER.id)),
+                Async(BindingHandler::new(Dataver::new_rand(&mut dv_rand), EXT_ENDPOINT, &bindings).adapt()),
+            )
+            .chain(
+                EpClMatcher::new(Some(EXT_ENDPOINT), Some(user_label::CLUSTER.id)),
+                Async(UserLabelHandler::new(Dataver::new_rand(&mut dv_rand), EXT_ENDPOINT, &labels).adapt()),
+            ),
+    );
     let dm = InteractionModel::new(&*device, &crypto, &*buffers, handler, &kv, &*im_state);
     let responder = Responder::new_default(&dm);
 
     let dump = || {
         let nets = im_state.networks().access(|n| canon_nets(n));
-        canon_state(&device, &nets, &h.kv, &h.cas, &h.noc_serial.borrow())
+        let core = canon_state(&device, &nets, &h.kv, &h.cas, &h.noc_serial.borrow());
+        // --- the extension: what the real Write / Subscribe interactions change besides the
+        // administrative state, in memory and as a node restarted from the store would load it
+        let keymap = |fabrics: &rs_matter::fabric::Fabrics| -> String {
+            let mut v: Vec<(u8, String)> = fabrics
+                .iter()
+                .map(|f| {
+                    let ids: Vec<String> = f.groups().key_map_iter().map(|e| e.group_id.to_string()).collect();
+                    (f.fab_idx().get(), format!("{}:{}", f.fab_idx().get(), if ids.is_empty() { "-".to_string() } else { ids.join("+") }))
+                })
+                .collect();
+            v.sort();
+            v.into_iter().map(|x| x.1).collect::<Vec<_>>().join(";")
+        };
+        let k_mem = device.with_state(|state| keymap(&state.fabrics));
+        let mut store = h.kv.clone();
+        let mut buf = vec![0u8; 8192];
+        let k_kv = {
+            let mut fabrics = rs_matter::fabric::Fabrics::new();
+            match fabrics.load_persist(&mut store, &mut buf) {
+                Ok(()) => keymap(&fabrics),
+                Err(_) => "ERR".to_string(),
+            }
+        };
+        let bind_str = |b: &Bindings<8>| -> String {
+            let mut v: Vec<String> = Vec::new();
+            for i in 0..b.len() {
+                if let Some(e) = b.get(i) {
+                    v.push(format!("{}.{}", e.fab_idx.get(), e.node.unwrap_or(0)));
+                }
+            }
+            v.join(";")
+        };
+        let b_mem = bind_str(&bindings);
+        let b_kv = {
+            let fresh: Bindings<8> = Bindings::new();
+            match fresh.load_persist(&mut store, &mut buf) {
+                Ok(()) => bind_str(&fresh),
+                Err(_) => "ERR".to_string(),
+            }
+        };
+        let ul_str = |l: &UserLabels<1, 4>| -> String {
+            l.verif_values(EXT_ENDPOINT).join(";")
+        };
+        let ul_mem = ul_str(&labels);
+        let ul_kv = {
+            let fresh: UserLabels<1, 4> = UserLabels::new();
+            match fresh.load_persist(&mut store, &mut buf) {
+                Ok(()) => ul_str(&fresh),
+                Err(_) => "ERR".to_string(),
+            }
+        };
+        let nl = |s: &str| if s.is_empty() { "-".to_string() } else { s.to_string() };
+        let nl_mem = device.with_state(|state| nl(state.verif_node_label()));
+        let nl_kv = {
+            let mut bi = rs_matter::dm::clusters::basic_info::BasicInfoSettings::new();
+            match bi.load_persist(&mut store, &mut buf) {
+                Ok(()) => nl(bi.node_label.as_str()),
+                Err(_) => "ERR".to_string(),
+            }
+        };
+        let mut subs: Vec<String> = Vec::new();
+        let mut cancelled = false;
+        im_state.verif_subscriptions().verif_visit(&mut |it| {
+            // A subscription whose report is in flight is outside the table for that time; it
+            // counts unless it has been cancelled (then it is dropped when the attempt ends).
+            use rs_matter::im::subscriptions::VerifItem;
+            match it {
+                VerifItem::Counters { reporting_cancelled, .. } => cancelled = reporting_cancelled,
+                VerifItem::Sub(v) => subs.push(format!("{}.{}", v.fab_idx, v.peer_node_id)),
+                VerifItem::Reporting(v) if !cancelled => {
+                    subs.push(format!("{}.{}", v.fab_idx, v.peer_node_id))
+                }
+                _ => {}
+            }
+        });
+        subs.sort();
+        let mut ksubs: Vec<String> = Vec::new();
+        for (k, v) in h.kv.0.borrow().map.iter() {
+            if *k >= PERSISTENT_SUBSCRIPTIONS_START && *k < PERSISTENT_SUBSCRIPTIONS_END {
+                let e = TLVElement::new(v.as_slice());
+                let fab = e.structure().and_then(|s| s.ctx(0)).and_then(|x| x.u8()).unwrap_or(0);
+                let peer = e.structure().and_then(|s| s.ctx(1)).and_then(|x| x.u64()).unwrap_or(0);
+                ksubs.push(format!("{}.{}", fab, peer));
+            }
+        }
+        ksubs.sort();
+        format!(
+            "{} X{{K[{}] KK[{}] B[{}] KB[{}] UL[{}] KUL[{}] NL[{}] KNL[{}] SUB[{}] KSUB[{}]}}",
+            core, k_mem, k_kv, b_mem, b_kv, ul_mem, ul_kv, nl_mem, nl_kv, subs.join(";"), ksubs.join(";")
+        )
     };
 
     let end: RefCell<BootEnd> = RefCell::new(BootEnd::Finished);
@@ -153,9 +300,11 @@ fn run_boot(h: &HCtx, ops: &[String], start: usize, restarted: bool, lines: &Ref
                 _ => "rej".to_string(),
             };
             let op = ops[start - 1].clone();
+            Timer::after(Duration::from_millis(5)).await;
             lines.borrow_mut().push((op, format!("{} | {}", st, dump())));
         }
         let mut next_local_sess: u16 = 1;
+        let mut tick_dropped: Option<String> = None;
         let mut i = start;
         while i < ops.len() {
             let op = ops[i].clone();
@@ -190,7 +339,7 @@ fn run_boot(h: &HCtx, ops: &[String], start: usize, restarted: bool, lines: &Ref
                 }
                 _ => {}
             }
-            let sess_ops = ["open", "arm", "csr", "root", "addnoc", "updnoc", "label", "complete", "rmfab", "revoke"];
+            let sess_ops = ["open", "arm", "csr", "root", "addnoc", "updnoc", "label", "complete", "rmfab", "revoke", "acl", "net", "rmnet", "bcw", "gkm", "nlabel", "ulabel", "bind", "sub"];
             let sid = num(&w, 1) as u32;
             let mut mode = SessionMode::PlainText;
             let mut sess_local: u16 = 0;
@@ -304,7 +453,44 @@ fn run_boot(h: &HCtx, ops: &[String], start: usize, restarted: bool, lines: &Ref
                     }
                 }
                 "tick" => {
+                    // While the time passes the subscription reporter runs as well. A report to a
+                    // subscriber that does not answer fails, and the reporter then drops the session
+                    // it used (im.rs `process_subscriptions`, the `Err` branch) - an event from outside
+                    // the administrative logic. It is named on the op line (`tick <secs> <sid>...`):
+                    // the CASE sessions to a (fabric, node) with a subscription that went away meanwhile.
+                    let mut subs: Vec<(u8, u64)> = Vec::new();
+                    im_state.verif_subscriptions().verif_visit(&mut |it| {
+                        use rs_matter::im::subscriptions::VerifItem;
+                        match it {
+                            VerifItem::Sub(v) | VerifItem::Reporting(v) => subs.push((v.fab_idx, v.peer_node_id)),
+                            _ => {}
+                        }
+                    });
+                    let case_sessions = || -> Vec<(u32, u8, u64)> {
+                        device.with_state(|state| {
+                            state
+                                .verif_parts()
+                                .sessions
+                                .iter()
+                                .filter_map(|s| match s.get_session_mode() {
+                                    SessionMode::Case { fab_idx, .. } => Some((s.id(), fab_idx.get(), s.get_peer_node_id().unwrap_or(0))),
+                                    _ => None,
+                                })
+                                .collect()
+                        })
+                    };
+                    let before = case_sessions();
                     Timer::after(Duration::from_secs(num(&w, 1))).await;
+                    let after = case_sessions();
+                    let mut gone: Vec<u32> = before
+                        .iter()
+                        .filter(|(id, fab, peer)| subs.contains(&(*fab, *peer)) && !after.iter().any(|a| a.0 == *id))
+                        .map(|x| x.0)
+                        .collect();
+                    gone.sort();
+                    if !gone.is_empty() {
+                        tick_dropped = Some(format!("tick {} {}", w[1], gone.iter().map(|x| x.to_string()).collect::<Vec<_>>().join(" ")));
+                    }
                     "ok".into()
                 }
                 "poll" => "ok".into(),
@@ -436,6 +622,127 @@ fn run_boot(h: &HCtx, ops: &[String], start: usize, restarted: bool, lines: &Ref
                                 }
                                 .await
                             }
+                            "acl" => {
+                                // AccessControl (0x1F) ACL (0): the whole list = the entries there are + one
+                                // admin / CASE entry for subject <v> (a list write replaces)
+                                let v = num(&w, 2);
+                                let sfab = mode.fab_idx();
+                                let mut subs: Vec<Vec<u64>> = device.with_state(|state| {
+                                    let p = state.verif_parts();
+                                    let x = NonZeroU8::new(sfab)
+                                        .and_then(|f| p.fabrics.get(f))
+                                        .map(|f| f.acl_iter().map(|e| e.subjects().into_option().map(|s| s.iter().copied().collect()).unwrap_or_default()).collect())
+                                        .unwrap_or_default();
+                                    x
+                                });
+                                subs.push(vec![v]);
+                                write_attr!(exchange, ROOT_ENDPOINT_ID, 0x1f, 0, |wr| {
+                                    wr.start_array(&TLVTag::Context(AttrDataTag::Data as u8))?;
+                                    for e in &subs {
+                                        wr.start_struct(&TLVTag::Anonymous)?;
+                                        wr.u8(&TLVTag::Context(1), 5)?;
+                                        wr.u8(&TLVTag::Context(2), 2)?;
+                                        wr.start_array(&TLVTag::Context(3))?;
+                                        for x in e {
+                                            wr.u64(&TLVTag::Anonymous, *x)?;
+                                        }
+                                        wr.end_container()?;
+                                        wr.null(&TLVTag::Context(4))?;
+                                        wr.end_container()?;
+                                    }
+                                    wr.end_container()
+                                })
+                                .await
+                            }
+                            "gkm" => {
+                                // GroupKeyManagement (0x3F) GroupKeyMap (0): the list [(group <v> -> key set 1)]
+                                let ids: Vec<u16> = vec![num(&w, 2) as u16];
+                                write_attr!(exchange, ROOT_ENDPOINT_ID, 0x3f, 0, |wr| {
+                                    wr.start_array(&TLVTag::Context(AttrDataTag::Data as u8))?;
+                                    for g in &ids {
+                                        wr.start_struct(&TLVTag::Anonymous)?;
+                                        wr.u16(&TLVTag::Context(1), *g)?;
+                                        wr.u16(&TLVTag::Context(2), 1)?;
+                                        wr.end_container()?;
+                                    }
+                                    wr.end_container()
+                                })
+                                .await
+                            }
+                            "bind" => {
+                                // Binding (0x1E) Binding (0) on endpoint 1: this fabric's list becomes [node target <v>]
+                                let nodes: Vec<u64> = vec![num(&w, 2)];
+                                write_attr!(exchange, EXT_ENDPOINT, 0x1e, 0, |wr| {
+                                    wr.start_array(&TLVTag::Context(AttrDataTag::Data as u8))?;
+                                    for n in &nodes {
+                                        wr.start_struct(&TLVTag::Anonymous)?;
+                                        wr.u64(&TLVTag::Context(1), *n)?;
+                                        wr.u16(&TLVTag::Context(3), 1)?;
+                                        wr.end_container()?;
+                                    }
+                                    wr.end_container()
+                                })
+                                .await
+                            }
+                            "ulabel" => {
+                                // UserLabel (0x41) LabelList (0) on endpoint 1: one label
+                                let v = format!("u{}", num(&w, 2));
+                                write_attr!(exchange, EXT_ENDPOINT, 0x41, 0, |wr| {
+                                    wr.start_array(&TLVTag::Context(AttrDataTag::Data as u8))?;
+                                    wr.start_struct(&TLVTag::Anonymous)?;
+                                    wr.utf8(&TLVTag::Context(0), "k")?;
+                                    wr.utf8(&TLVTag::Context(1), &v)?;
+                                    wr.end_container()?;
+                                    wr.end_container()
+                                })
+                                .await
+                            }
+                            "nlabel" => {
+                                // BasicInformation (0x28) NodeLabel (5)
+                                let v = format!("n{}", num(&w, 2));
+                                write_attr!(exchange, ROOT_ENDPOINT_ID, 0x28, 5, |wr| wr.utf8(&TLVTag::Context(AttrDataTag::Data as u8), &v)).await
+                            }
+                            "bcw" => {
+                                // GeneralCommissioning (0x30) Breadcrumb (0)
+                                let v = num(&w, 2);
+                                write_attr!(exchange, ROOT_ENDPOINT_ID, 0x30, 0, |wr| wr.u64(&TLVTag::Context(AttrDataTag::Data as u8), v)).await
+                            }
+                            "net" => {
+                                // NetworkCommissioning (0x31) AddOrUpdateWiFiNetwork (0x02)
+                                let id = format!("net{}", num(&w, 2)).into_bytes();
+                                invoke_status2(exchange, 0x31, 0x02, vec![Field::Str(id), Field::Str(b"pw".to_vec())]).await
+                            }
+                            "rmnet" => {
+                                // NetworkCommissioning (0x31) RemoveNetwork (0x04)
+                                let id = format!("net{}", num(&w, 2)).into_bytes();
+                                invoke_status2(exchange, 0x31, 0x04, vec![Field::Str(id)]).await
+                            }
+                            "sub" => {
+                                // Subscribe to BasicInformation NodeLabel, never due within a case
+                                let paths = [AttrPath::from_gp(&GenericPath::new(Some(0), Some(0x28), Some(5)))];
+                                async {
+                                    let mut sender = exchange.subscribe_sender().await?;
+                                    let mut chunk = loop {
+                                        match sender.tx().await? {
+                                            TxOutcome::BuildRequest(builder) => {
+                                                sender = builder.keep_subs(true)?.min_int_floor(3000)?.max_int_ceil(3600)?.attr_requests_from(&paths)?.fabric_filtered(false)?.end()?;
+                                            }
+                                            TxOutcome::GotResponse(c) => break c,
+                                        }
+                                    };
+                                    loop {
+                                        let _ = chunk.response()?;
+                                        match chunk.complete().await? {
+                                            SubscribeOutcome::NextChunk(next) => chunk = next,
+                                            SubscribeOutcome::Established(_) => break,
+                                        }
+                                    }
+                                    // the server enters (and persists) the subscription right after its response
+                                    Timer::after(Duration::from_millis(200)).await;
+                                    Ok("ok".to_string())
+                                }
+                                .await
+                            }
                             // AdministratorCommissioning (0x3C): OpenBasicCommissioningWindow (0x01) and
                             // RevokeCommissioning (0x02) must be timed invokes
                             "open" => invoke_status(exchange, true, 0x3c, 0x01, Field::U16(300)).await,
@@ -456,7 +763,12 @@ fn run_boot(h: &HCtx, ops: &[String], start: usize, restarted: bool, lines: &Ref
             };
             let status = if status == "rej" && h.kv.0.borrow().failed_calls != faults_before { "NoSpace".to_string() } else { status };
             let slow = w[0] != "tick" && crate::simnet::now_ms() - t_op > 900;
+            // let the tasks the op has woken run (the subscription reporter drops the subscriptions of a
+            // fabric that is gone and purges their persisted records) before the state is dumped
+            Timer::after(Duration::from_millis(5)).await;
             if !slow {
+                // (a replayed `tick <secs> <sid>...` line is re-derived, not believed)
+                let op = if w[0] == "tick" { tick_dropped.take().unwrap_or(format!("tick {}", w[1])) } else { op };
                 lines.borrow_mut().push((op, format!("{} | {}", status, dump())));
             }
             if slow {
@@ -545,6 +857,49 @@ async fn invoke_status<'a>(exchange: Exchange<'a>, timed: bool, cluster: u32, cm
                 }
             }
             good = any && all;
+        }
+    }
+    chunk.complete().await?;
+    Ok(if good { "ok".to_string() } else { "rej".to_string() })
+}
+
+/// a command with octet-string fields that answers with a response struct whose field 0 is a status
+/// (0 = Success) - or with an IM status
+async fn invoke_status2<'a>(exchange: Exchange<'a>, cluster: u32, cmd: u32, fields: Vec<Field>) -> Result<String, Error> {
+    let chunk = exchange
+        .invoke_with(None, |msg| {
+            msg.suppress_response(false)?
+                .timed_request(false)?
+                .invoke_requests()?
+                .push()?
+                .path(ROOT_ENDPOINT_ID, cluster, cmd)?
+                .data(|w| {
+                    w.start_struct(&TLVTag::Context(CmdDataTag::Data as u8))?;
+                    for (i, f) in fields.iter().enumerate() {
+                        match f {
+                            Field::None => {}
+                            Field::Str(b) => w.str(&TLVTag::Context(i as u8), b)?,
+                            Field::U16(v) => w.u16(&TLVTag::Context(i as u8), *v)?,
+                        }
+                    }
+                    w.end_container()
+                })?
+                .end()?
+                .end()?
+                .end()
+        })
+        .await?;
+    let mut good = false;
+    if let Some(resp) = chunk.response()? {
+        if let Some(list) = resp.invoke_responses {
+            for r in list.iter().take(4) {
+                match r? {
+                    CmdResp::Status(st) => good = st.status.status == IMStatusCode::Success,
+                    CmdResp::Cmd(c) => {
+                        good = c.data.structure().and_then(|s| s.ctx(0)).and_then(|x| x.u8()).map(|x| x == 0).unwrap_or(false);
+                    }
+                }
+            }
         }
     }
     chunk.complete().await?;
